@@ -253,7 +253,10 @@ inline vegas_pdf<T> vegas_refine_pdf(vegas_pdf<T> const& pdf, T alpha, std::vect
             T const current  = pdf.bin_left(i, bin);
             this_bin -= average_per_bin;
             T const delta = (current - previous) * this_bin;
-            T const new_left = current - delta / tmp[bin - 1];
+            // rounding errors can place the boundary slightly left of the previous one if the bins of
+            // the old pdf are (nearly) empty; the boundaries must never decrease
+            T const new_left = fmax(current - delta / tmp[bin - 1],
+                new_pdf.bin_left(i, new_bin - 1));
 
             new_pdf.set_bin_left(i, new_bin, new_left);
         }
